@@ -1684,6 +1684,10 @@ class InterInventoryTree(InterTree):
             source_path = path_equivs[target_path]
             if source_path is not None:
                 source_entry = from_data.get(source_path)
+                if source_entry is None:
+                    # The two trees may select different ids for
+                    # specific_files; the entry is still present in source.
+                    source_entry = self._get_entry(self.source, source_path)
             else:
                 source_entry = None
             result, changes = self._changes_from_entries(
@@ -1737,6 +1741,20 @@ class InterInventoryTree(InterTree):
             entry_count += 1
             if pb is not None:
                 pb.update("comparing files", entry_count, num_entries)
+            if to_path is not None:
+                # Present in target, but not selected there: the two trees
+                # may select different ids for specific_files.
+                result, changes = self._changes_from_entries(
+                    from_entry,
+                    self._get_entry(self.target, to_path),
+                    source_path=path,
+                    target_path=to_path,
+                )
+                if changes or include_unchanged:
+                    precise_file_ids.add(result.parent_id[1])
+                    changed_file_ids.append(file_id)
+                    yield result
+                continue
             versioned = (True, False)
             parent = (from_entry.parent_id, None)
             name = (from_entry.name, None)
